@@ -25,6 +25,7 @@ func init() {
 		ruleR3(c, "C09.A9")
 		ruleW1(c, "C09.A10")
 		ruleL2(c, "C09.A11")
+		ruleX4(c, "C09.A12")
 	}
 }
 
